@@ -258,6 +258,13 @@ class Engine:
             f = {ast.Lt: lambda a, b: a < b, ast.LtE: lambda a, b: a <= b, ast.Gt: lambda a, b: a > b,
                  ast.GtE: lambda a, b: a >= b, ast.Eq: lambda a, b: a == b, ast.NotEq: lambda a, b: a != b}
             return Sym(TBool, f[op](Length(s.term), k))
+        if isinstance(s.t, TBag):               # len(list) against 0 / 1 / 2, lists as bags: total multiplicity without a sum
+            x, y = Const(fresh_name('lx'), s.t.elem.sort()), Const(fresh_name('ly'), s.t.elem.sort())
+            empty = ForAll([x], Select(s.term, x) <= 0)
+            atmost1 = And(ForAll([x], Select(s.term, x) <= 1), ForAll([x, y], Implies(And(Select(s.term, x) > 0, Select(s.term, y) > 0), x == y)))
+            tb = {(ast.Gt, 1): Not(atmost1), (ast.GtE, 2): Not(atmost1), (ast.LtE, 1): atmost1, (ast.Lt, 2): atmost1, (ast.Eq, 0): empty, (ast.NotEq, 0): Not(empty),
+                  (ast.Gt, 0): Not(empty), (ast.GtE, 1): Not(empty), (ast.LtE, 0): empty, (ast.Lt, 1): empty}
+            return Sym(TBool, tb[(op, k)]) if (op, k) in tb else None
         if not isinstance(s.t, TSet): return None
         x, y = Const(fresh_name('lx'), s.t.elem.sort()), Const(fresh_name('ly'), s.t.elem.sort())
         atmost1 = ForAll([x, y], Implies(And(Select(s.term, x), Select(s.term, y)), x == y))
@@ -844,7 +851,7 @@ class Engine:
                 it.pc += [ForAll([q], And(Select(done.term, q) >= 0, Select(done.term, q) <= Select(coll.term, q))),
                           Select(done.term, x.term) < Select(coll.term, x.term)]
                 done2 = Sym(t, Store(done.term, x.term, Select(done.term, x.term) + 1))
-            it.pc.append(INV(it, done)); it.env['$done' + ordinal] = done; binder(x, it.env)
+            it.pc.append(INV(it, done)); it.env['$done' + ordinal] = done; it.env['$key' + ordinal] = x; binder(x, it.env)       # $key: the element (for dict views: the key)
             finish(self.ex_block(s.body, it, path), lambda e_st: INV(e_st, done2))
             results.append((exit_state(lambda xst: INV(xst, coll)), 'normal')); return results
         raise Unsupported(f'for over {t} (line {s.lineno})')
